@@ -588,6 +588,14 @@ theorem step_approved_other (w : World) (op : Op σ) (hna : ∀ ms proof, op ≠
     | setTime now =>
       have : (step H V w (.setTime now)).1.st = w.st := rfl
       rw [this, ha] at h1; cases h1
+    | upgrade auths =>
+      obtain ⟨b, hb⟩ := step_upgrade_fst H V w auths
+      rw [hb] at h1
+      simp only [ha] at h1; cases h1
+    | migrate auths =>
+      obtain ⟨b, hb⟩ := step_migrate_fst H V w auths
+      rw [hb] at h1
+      simp only [ha] at h1; cases h1
   · rw [ha] at h1; cases h1
 
 /-- **one step**: a record `approved h` present after a typed operation was present before, or the operation was a
